@@ -291,7 +291,8 @@ def check_property(pid, tier, seed, jobs=None, only=None):
     tasks = tasks + \
             [(verify_lemma, (n, tier, seed, timeout_ms)) for n in lemmas] + \
             [(run_native_entry, ("finite", n, tier, seed)) for n in fin] + \
-            [(run_native_entry, ("bounded", n, tier, seed)) for n in bnd]
+            [(run_native_entry, ("bounded", n, tier, seed + 7919 * k))
+             for n in bnd for k in range(api.BOUNDED[n].get("shards", 1) if tier == "thorough" else 1)]
     jobs = jobs or min(16, max(1, len(tasks)))
     results = []
     if jobs == 1 or len(tasks) <= 1:
@@ -310,7 +311,42 @@ def check_property(pid, tier, seed, jobs=None, only=None):
     return summarize(pid, tier, seed, merge_shards(results), time.time() - t0)
 
 
+def merge_native_shards(results):
+    """several runs of one random bounded check (different seeds): cases add up, violations and errors are kept"""
+    out, by_name = [], {}
+    for r in results:
+        if r.get("kind") != "bounded" or r["name"] not in by_name:
+            if r.get("kind") == "bounded":
+                by_name[r["name"]] = r
+                r["_runs"] = 1
+            out.append(r)
+            continue
+        m = by_name[r["name"]]
+        m["_runs"] += 1
+        m["cases"] = (m.get("cases") or 0) + (r.get("cases") or 0)
+        m["wall_s"] = round(max(m.get("wall_s", 0), r.get("wall_s", 0)), 3)
+        m["violations"] = (m.get("violations") or []) + (r.get("violations") or [])
+        if "error" in r and "error" not in m:
+            m["error"], m["tb"] = r["error"], r.get("tb", "")
+        for k_ in ("known_reproduced",):
+            if r.get(k_):
+                m[k_] = sorted(set((m.get(k_) or []) + r[k_]))
+    for m in by_name.values():
+        if m.get("_runs", 1) > 1:
+            m["bound"] = "%s x %d independent runs" % (m.get("bound"), m["_runs"])
+            # the same known finding replayed by every run is one line
+            seen, vs = set(), []
+            for v in m.get("violations") or []:
+                key = json.dumps(v.get("inputs"), sort_keys=True, default=str)
+                if key not in seen:
+                    seen.add(key)
+                    vs.append(v)
+            m["violations"] = vs
+    return out
+
+
 def merge_shards(results):
+    results = merge_native_shards(results)
     out = []
     by_fn = {}
     for r in results:
